@@ -47,6 +47,21 @@ class Degrees:
         self.mem = mem
         self.env = dict(penv)       # decl id -> degree
         self.depth = depth
+        self.zero_lit = set()       # variables whose current value is the literal 0
+
+    def _is_zero_literal(self, nid):
+        n = self.fn.nodes[self.fn.strip_casts(nid)]
+        if 'cv' in n and n['k'] != 'DeclRefExpr':
+            try:
+                return int(n['cv']) == 0
+            except ValueError:
+                return False
+        if n['k'] == 'FloatingLiteral':
+            try:
+                return float(n.get('v', '1')) == 0
+            except ValueError:
+                return False
+        return False
 
     def ev(self, nid):
         f = self.fn
@@ -86,6 +101,12 @@ class Degrees:
                     v = dmul(cur, rhs) if op == '*=' else (dsub(cur, rhs) if op == '/=' else
                                                            (dsame(cur, rhs) if op in ('+=', '-=') else TOPD))
                 self.store(n['ch'][0], v)
+                ln = f.nodes[f.strip(n['ch'][0])]
+                if ln['k'] == 'DeclRefExpr':
+                    if op == '=' and self._is_zero_literal(n['ch'][1]):
+                        self.zero_lit.add(ln.get('d'))
+                    else:
+                        self.zero_lit.discard(ln.get('d'))
                 return v
             a, b = self.ev(n['ch'][0]), self.ev(n['ch'][1])
             if op == '*':
@@ -177,16 +198,21 @@ class Degrees:
         elif k == 'DeclStmt':
             for d in n['decls']:
                 self.env[d['d']] = self.ev(d['init']) if d.get('init', -1) >= 0 else 0
+                if d.get('init', -1) >= 0 and self._is_zero_literal(d['init']):
+                    self.zero_lit.add(d['d'])
+                else:
+                    self.zero_lit.discard(d['d'])
         elif k == 'IfStmt':
             self.ev(n['cond'])
-            e0, m0 = dict(self.env), dict(self.mem)
+            e0, m0, z0 = dict(self.env), dict(self.mem), set(self.zero_lit)
             self.ex(n.get('then', -1))
-            e1, m1 = self.env, dict(self.mem)
+            e1, m1, z1 = self.env, dict(self.mem), set(self.zero_lit)
             self.env = dict(e0)
             self.mem.clear()
             self.mem.update(m0)
+            self.zero_lit = set(z0)
             self.ex(n.get('else', -1))
-            e2, m2 = self.env, dict(self.mem)
+            e2, m2, z2 = self.env, dict(self.mem), set(self.zero_lit)
             throws_then = self._throws(n.get('then', -1))
             throws_else = self._throws(n.get('else', -1))
             if throws_then and not throws_else:
@@ -198,7 +224,15 @@ class Degrees:
                 self.mem.clear()
                 self.mem.update(m1)
             else:
-                self.env = {kk: dsame(e1.get(kk, 0), e2.get(kk, 0)) for kk in set(e1) | set(e2)}
+                # a literal 0 on one arm (the limit value of a removable singularity) is compatible with any degree
+                def jn(kk):
+                    if kk in z1 and kk not in z2:
+                        return e2.get(kk, 0)
+                    if kk in z2 and kk not in z1:
+                        return e1.get(kk, 0)
+                    return dsame(e1.get(kk, 0), e2.get(kk, 0))
+                self.env = {kk: jn(kk) for kk in set(e1) | set(e2)}
+                self.zero_lit = z1 & z2
                 self.mem.clear()
                 self.mem.update({kk: dsame(m1.get(kk, 0), m2.get(kk, 0)) for kk in set(m1) | set(m2)})
         elif k in ('ForStmt', 'WhileStmt', 'DoStmt'):
